@@ -39,7 +39,8 @@ def gen_walk_scripts(ctx, kind, ty, n, rng):
         expect = []
         for si, (lab, dst) in enumerate(w):
             name, args = behaviours.parse_label(lab)
-            lines.append(("ins %d" if name == "SInsert" else "rem %d") % args[0])
+            # an insert is made with fresh key and value objects, or (every third one) with the value object that is stored under the key already
+            lines.append(("insv %d" if name == "SInsert" and (si + wi) % 3 == 0 else "ins %d" if name == "SInsert" else "rem %d") % args[0])
             lines.append("obs")
             expect.append(shapes[dst])
             if si % 3 == 0:
